@@ -180,24 +180,41 @@ def relevant_hyps(p_syms, hyps_syms):
     return sorted(used)
 
 
-def prove_eq(p, hyps, order, timeout=30, use_cache=True, want_groebner=True):
+def nonzero_from_facts(term, facts, timeout_ms=5000):
+    """z3: facts |- term != 0"""
+    for f in facts:
+        if z3.is_distinct(f) or (z3.is_not(f) and z3.is_eq(f.arg(0))):
+            pass
+    sol = z3.Solver()
+    sol.set('timeout', timeout_ms)
+    for f in facts:
+        sol.add(f)
+    sol.add(term == 0)
+    return sol.check() == z3.unsat
+
+
+def prove_eq(p, hyps, order, timeout=30, use_cache=True, want_groebner=True, facts=()):
     """Try to prove p == 0 from hyps (lists of z3 terms). order: symbol names, creation order.
+    A certificate is (M, c_i) with  M*p == sum c_i h_i  as a polynomial identity (checked by z3)
+    and M != 0 under `facts` (checked by z3).
     returns dict(status='discharged'|'unknown'|'not-in-ideal', backend=..., detail=..., seconds=...)"""
     t0 = time.time()
     out = {'status': 'unknown', 'backend': 'certificate+z3', 'detail': ''}
+
+    def fin():
+        out['seconds'] = time.time() - t0
+        return out
     # 0. plain identity
     if check_identity(p, 5000):
         out.update(status='discharged', detail='identity (no hypotheses needed)', n_cofactors=0)
-        out['seconds'] = time.time() - t0
-        return out
+        return fin()
     cache = {}
     try:
         p_s = z3_to_sympy(p, cache)
         hyps_s_all = [z3_to_sympy(h, cache) for h in hyps]
     except ValueError as e:
         out['detail'] = 'goal/hypothesis not polynomial: %s' % e
-        out['seconds'] = time.time() - t0
-        return out
+        return fin()
     zsyms = symbols_of(p)
     for h in hyps:
         symbols_of(h, zsyms)
@@ -213,96 +230,201 @@ def prove_eq(p, hyps, order, timeout=30, use_cache=True, want_groebner=True):
     names = sorted(allsyms, key=lambda nm: -pos.get(nm, -1))      # newest first
     gens = [sympy.Symbol(nm) for nm in names]
     if not gens:
-        out['detail'] = 'constant non-zero goal'
-        out['status'] = 'not-in-ideal'
-        out['seconds'] = time.time() - t0
-        return out
+        out.update(status='not-in-ideal', detail='constant non-zero goal')
+        return fin()
     key = _hint_key(p_s, hyps_s, gens)
     hint = _load_hint(key) if use_cache else None
-    cof = None
+    cof = mult = None
     if hint is not None and hint.get('cofactors') is not None:
         try:
             cof = [sympy.Poly(sympy.sympify(c), *gens, domain='QQ') for c in hint['cofactors']]
-            out['detail'] = 'cached hint'
+            mult = sympy.Poly(sympy.sympify(hint.get('mult', '1')), *gens, domain='QQ')
+            out['detail'] = 'cached hint (%s)' % hint.get('how', '')
         except Exception:
             cof = None
     elif hint is not None and hint.get('status') == 'not-in-ideal':
-        out.update(status='not-in-ideal', detail='cached: non-zero remainder ' + hint.get('detail', ''))
-        out['seconds'] = time.time() - t0
-        return out
+        out.update(status='not-in-ideal', detail='cached: ' + hint.get('detail', ''))
+        return fin()
     if cof is None:
         try:
-            with time_limit(timeout):
-                cof, detail, status = _find_cofactors(p_s, hyps_s, gens, want_groebner)
-        except Timeout:
-            cof, detail, status = None, 'hint generator timed out after %ds' % timeout, 'unknown'
+            mult, cof, detail, status = _find_cofactors(p_s, hyps_s, gens, want_groebner, timeout)
         except Exception as e:       # sympy failure: no proof, never a verdict
-            cof, detail, status = None, 'hint generator failed: %r' % (e,), 'unknown'
+            mult, cof, detail, status = None, None, 'hint generator failed: %r' % (e,), 'unknown'
         out['detail'] = detail
         if cof is None:
             out['status'] = status
             if status == 'not-in-ideal':
                 _save_hint(key, {'status': status, 'detail': detail})
-            out['seconds'] = time.time() - t0
-            return out
-        _save_hint(key, {'cofactors': [str(c.as_expr()) for c in cof], 'n_hyps': len(hyps_s)})
-    # trusted check: p - sum c_i h_i == 0 in z3, built from the z3 goal and the z3 hypotheses
-    acc = p
+            return fin()
+        _save_hint(key, {'cofactors': [str(c.as_expr()) for c in cof], 'mult': str(mult.as_expr()),
+                         'n_hyps': len(hyps_s), 'how': detail})
+    # trusted check: M*p - sum c_i h_i == 0 in z3, built from the z3 goal and the z3 hypotheses
+    one = mult.is_one
+    mz = None if one else sympy_to_z3(mult, zsyms)
+    acc = p if one else mz * p
     for c, hz in zip(cof, hyps_z):
         if c.is_zero:
             continue
         acc = acc - sympy_to_z3(c, zsyms) * hz
-    if check_identity(acc):
-        out.update(status='discharged', n_cofactors=sum(1 for c in cof if not c.is_zero))
-    else:
+    if not check_identity(acc):
         out.update(status='unknown', detail=out['detail'] + '; z3 rejected the proposed cofactors')
-    out['seconds'] = time.time() - t0
-    return out
+        return fin()
+    if not one:
+        # M is a product of leading coefficients; each factor must be non-zero under the facts
+        ok = True
+        for fac, _e in sympy.factor_list(mult.as_expr())[1]:
+            fz = sympy_to_z3(sympy.Poly(fac, *gens, domain='QQ'), zsyms)
+            if not nonzero_from_facts(fz, list(facts)):
+                ok = False
+                out['detail'] += '; multiplier factor %s not shown non-zero' % str(fac)[:80]
+                break
+        if not ok:
+            out['status'] = 'unknown'
+            return fin()
+        out['detail'] += ' with multiplier'
+    out.update(status='discharged', n_cofactors=sum(1 for c in cof if not c.is_zero))
+    return fin()
 
 
-def _find_cofactors(p_s, hyps_s, gens, want_groebner):
+def _triangular(P, H, gens):
+    """Wu-Ritt style reduction for hypotheses that form a triangular set w.r.t. creation order:
+    each hypothesis has a main variable (its newest symbol); successive pseudo-division gives
+    M * P = sum c_i h_i + R.  Returns (M, cofactors, R) as sympy expressions / None."""
+    pos = {g: i for i, g in enumerate(gens)}          # gens are newest first
+    items = []
+    for idx, h in enumerate(H):
+        if h.is_zero:
+            continue
+        fs = [g for g, d in zip(h.gens, h.degree_list()) if d > 0]
+        if not fs:
+            continue
+        v = min(fs, key=lambda g: pos[g])
+        items.append((pos[v], idx, v, h))
+    items.sort()
+    seen = set()
+    for pv, idx, v, h in items:
+        if pv in seen:
+            return None                # two hypotheses share a main variable: not triangular
+        seen.add(pv)
+    R = P.as_expr()
+    M = sympy.Integer(1)
+    cof = [sympy.Integer(0)] * len(H)
+    for pv, idx, v, h in items:
+        if R == 0:
+            break
+        he = h.as_expr()
+        dR = sympy.degree(R, v)
+        dh = sympy.degree(he, v)
+        if dR < dh:
+            continue
+        lc = sympy.LC(he, v)
+        if lc.is_number:
+            q, r = sympy.div(R, he, v)
+            mult = sympy.Integer(1)
+        else:
+            q, r = sympy.pdiv(R, he, v)
+            mult = lc ** (dR - dh + 1)
+        if mult != 1:
+            cof = [sympy.expand(c * mult) if c != 0 else c for c in cof]
+            M = M * mult
+        cof[idx] = cof[idx] + q
+        R = sympy.expand(r)
+    return M, cof, R
+
+
+def _lift_linear(g, Hn, gens):
+    """constants lam with g == sum lam_i h_i (None if there are none)"""
+    mons = {}
+    cols = []
+    for h in Hn:
+        col = {}
+        for mon, coef in h.terms():
+            col[mon] = coef
+            mons.setdefault(mon, len(mons))
+        cols.append(col)
+    rhs = {}
+    for mon, coef in g.terms():
+        rhs[mon] = coef
+        if mon not in mons:
+            return None
+    A = sympy.zeros(len(mons), len(Hn))
+    b = sympy.zeros(len(mons), 1)
+    for j, col in enumerate(cols):
+        for mon, coef in col.items():
+            A[mons[mon], j] = coef
+    for mon, coef in rhs.items():
+        b[mons[mon], 0] = coef
+    try:
+        sol, params = A.gauss_jordan_solve(b)
+    except ValueError:
+        return None
+    sub = {p_: 0 for p_ in params}
+    return [sympy.Rational(x.subs(sub)) for x in sol]
+
+
+def _find_cofactors(p_s, hyps_s, gens, want_groebner, timeout=30):
+    """-> (multiplier Poly, cofactor Polys | None, detail, status); three strategies, each with a
+    third of the time budget: triangular pseudo-division, lex division, Groebner basis + lift"""
+    one = sympy.Poly(1, *gens, domain='QQ')
     P = sympy.Poly(p_s, *gens, domain='QQ')
     if P.is_zero:
-        return [sympy.Poly(0, *gens, domain='QQ') for _ in hyps_s], 'zero after expansion', 'ok'
+        return one, [sympy.Poly(0, *gens, domain='QQ') for _ in hyps_s], 'zero after expansion', 'ok'
     H = [sympy.Poly(h, *gens, domain='QQ') for h in hyps_s]
     keep = [i for i, h in enumerate(H) if not h.is_zero]
     Hn = [H[i] for i in keep]
     if not Hn:
-        return None, 'goal does not expand to zero and there are no hypotheses', 'not-in-ideal'
+        return None, None, 'goal does not expand to zero and there are no hypotheses', 'not-in-ideal'
 
     def place(q):
         cof = [sympy.Poly(0, *gens, domain='QQ') for _ in H]
         for i, c in zip(keep, q):
             cof[i] = sympy.Poly(c, *gens, domain='QQ')
         return cof
-    q, r = sympy.reduced(P, Hn, *gens, order='lex', domain='QQ', polys=True)
-    if r.is_zero:
-        return place(q), 'reduced(lex) over the hypotheses', 'ok'
+    share = max(2, timeout // 3)
+    notes = []
+    decided_not = False
+    try:
+        with time_limit(share):
+            tri = _triangular(P, Hn, gens)
+        if tri is None:
+            notes.append('hypotheses are not a triangular set')
+        else:
+            M, cof, R = tri
+            if R == 0:
+                return sympy.Poly(M, *gens, domain='QQ'), place(cof), 'triangular pseudo-division', 'ok'
+            notes.append('triangular pseudo-remainder has %d terms' % len(sympy.Poly(R, *gens).terms()))
+    except Timeout:
+        notes.append('triangular reduction timed out')
+    try:
+        with time_limit(share):
+            q, r = sympy.reduced(P, Hn, *gens, order='lex', domain='QQ', polys=True)
+        if r.is_zero:
+            return one, place(q), 'division by the hypotheses (lex)', 'ok'
+        notes.append('lex division leaves %d terms' % len(r.terms()))
+    except Timeout:
+        notes.append('lex division timed out')
     if not want_groebner:
-        return None, 'non-zero remainder (no Groebner step): %d terms' % len(r.terms()), 'unknown'
-    # tagged Groebner basis: ideal <h_i - y_i>; normal form of p is P(x, y) with P(x, 0) == 0
-    # iff p in <h_i>; substituting y_i := h_i gives the cofactors.
-    ys = [sympy.Symbol('y!%d' % i) for i in range(len(Hn))]
-    tagged = [h.as_expr() - y for h, y in zip(Hn, ys)]
-    allg = list(gens) + ys
-    G = sympy.groebner(tagged, *allg, order='lex', domain='QQ')
-    _, nf = G.reduce(P.as_expr())
-    nfp = sympy.Poly(nf, *allg, domain='QQ')
-    ny = len(ys)
-    cof_expr = [sympy.Integer(0)] * ny
-    for mon, coef in nfp.terms():
-        ymon = mon[len(gens):]
-        if not any(ymon):
-            return None, 'normal form has a tag-free term: goal not in the ideal', 'not-in-ideal'
-        j = next(i for i, e in enumerate(ymon) if e)
-        term = coef
-        for g, e in zip(allg, mon):
-            e2 = e
-            if g is ys[j]:
-                e2 = e - 1
-            if e2:
-                term = term * g ** e2
-        cof_expr[j] = cof_expr[j] + term
-    sub = {y: h.as_expr() for y, h in zip(ys, Hn)}
-    q = [sympy.Poly(sympy.expand(c.subs(sub)), *gens, domain='QQ') for c in cof_expr]
-    return place(q), 'tagged Groebner basis', 'ok'
+        return None, None, '; '.join(notes), 'unknown'
+    try:
+        with time_limit(share):
+            G = sympy.groebner([h.as_expr() for h in Hn], *gens, order='grevlex', domain='QQ')
+            Gp = [sympy.Poly(g, *gens, domain='QQ') for g in G.exprs]
+            qs, r = sympy.reduced(P.as_expr(), [g.as_expr() for g in Gp], *gens, order='grevlex', domain='QQ')
+            if r != 0:
+                return None, None, '; '.join(notes) + '; non-zero normal form modulo the Groebner basis (%d terms)' \
+                    % len(sympy.Poly(r, *gens).terms()), 'not-in-ideal'
+            cof = [sympy.Integer(0)] * len(Hn)
+            for qk, gk in zip(qs, Gp):
+                if qk == 0:
+                    continue
+                lam = _lift_linear(gk, Hn, gens)
+                if lam is None:
+                    return None, None, '; '.join(notes) + '; in the ideal, but no constant lift of a Groebner ' \
+                        'element to the hypotheses', 'unknown'
+                for i, l in enumerate(lam):
+                    if l != 0:
+                        cof[i] = cof[i] + qk * l
+            return one, place([sympy.expand(c) for c in cof]), 'Groebner basis (grevlex) + linear lift', 'ok'
+    except Timeout:
+        notes.append('Groebner step timed out')
+    return None, None, '; '.join(notes), 'unknown'
